@@ -1,5 +1,5 @@
 (** * C09 — the lexer partitions the source into the documented tokens. *)
-From PQL Require Import Model.Lexer Proofs.LexerFacts Proofs.SplitFacts.
+From PQL Require Import Model.Lexer Proofs.LexerFacts Proofs.SplitFacts Proofs.LexSpec.
 From Coq Require Import String.
 Local Open Scope list_scope.
 Local Open Scope nat_scope.
@@ -26,6 +26,78 @@ Theorem C09_fuel_irrelevant : forall f1 f2 off l, length l < f1 -> length l < f2
   scan_from f1 off l = scan_from f2 off l.
 Proof. exact scan_from_fuel. Qed.
 Print Assumptions C09_fuel_irrelevant.
+
+(** between the tokens there is only white space and // comments: the scan covers the source, in
+    order, by tokens and by skipped items, and a skipped item is a white-space rune or a comment
+    running to the end of its line *)
+Theorem C09_only_layout_between_tokens : forall s, covers 0 s (scan s).
+Proof. exact scan_covers. Qed.
+Print Assumptions C09_only_layout_between_tokens.
+
+Theorem C09_skipped_is_layout : forall l n, l <> [] -> lex1 l = Skip n -> layout_item l n.
+Proof. exact lex1_skip. Qed.
+Print Assumptions C09_skipped_is_layout.
+
+(** identifiers: the longest run [A-Za-z_$][A-Za-z0-9_]* at the position; the value is the text;
+    and, or, in, by (the generated table) are keywords with kinds of their own *)
+Theorem C09_identifier : forall b r, is_ident_start b = true ->
+  let run := b :: take_while is_ident_char r in
+  lex1 (b :: r) = (match keyword_kind run with Some k => Tok k [] (length run) | None => Tok KIdentifier run (length run) end)
+  /\ firstn (length run) (b :: r) = run
+  /\ forallb is_ident_char (take_while is_ident_char r) = true
+  /\ match skipn (length run) (b :: r) with [] => True | c :: _ => is_ident_char c = false end.
+Proof. exact ident_spec. Qed.
+Print Assumptions C09_identifier.
+
+Theorem C09_keywords :
+  keyword_kind (L "and") = Some KAnd /\ keyword_kind (L "or") = Some KOr /\ keyword_kind (L "in") = Some KIn /\
+  keyword_kind (L "by") = Some KBy /\ length keywords = 4.
+Proof. exact keywords_documented. Qed.
+Print Assumptions C09_keywords.
+
+(** a name of any bytes but a newline, written between backticks with its backticks doubled, is
+    one quoted-identifier token whose value is exactly that name *)
+Theorem C09_quoted_identifier_roundtrip : forall s rest, no_newline s ->
+  (match rest with c :: _ => c <> 96%N | [] => True end) ->
+  lex1 (bq_quote s ++ rest) = Tok KQuotedIdentifier s (length (bq_quote s)).
+Proof. exact quoted_roundtrip. Qed.
+Print Assumptions C09_quoted_identifier_roundtrip.
+
+(** a hexadecimal literal is one number token whose value is the decimal spelling of the same
+    number (one error token over the whole literal when it does not fit in 64 bits) *)
+Theorem C09_hexadecimal : forall x ds rest, (x = 120 \/ x = 88)%N -> ds <> [] -> forallb is_hex_digit ds = true ->
+  (match rest with c :: _ => is_hex_digit c = false | [] => True end) ->
+  lex1 (48%N :: x :: ds ++ rest) =
+    (if (hex_value ds <? two64)%N then Tok KNumber (N_to_dec (hex_value ds)) (2 + length ds) else Tok KError [] (2 + length ds))
+  /\ dec_value (N_to_dec (hex_value ds)) = hex_value ds.
+Proof. exact hex_spec. Qed.
+Print Assumptions C09_hexadecimal.
+
+(** decimal literals are normalised by removing leading zeros and writing one zero before a
+    leading `.`, `e` or `E`: the same number; an integer literal keeps its value *)
+Theorem C09_normalisation : forall s, exists k rest, s = repeat 48%N k ++ rest /\
+  (match rest with c :: _ => c <> 48%N | [] => True end) /\
+  normalize_number s =
+    match rest with
+    | [] => [48%N]
+    | c :: _ => if ((c =? 46) || (c =? 101) || (c =? 69))%N then 48%N :: rest else rest
+    end.
+Proof. exact normalize_spec. Qed.
+Print Assumptions C09_normalisation.
+
+Theorem C09_integer_value : forall s, forallb is_digit s = true -> dec_value (normalize_number s) = dec_value s.
+Proof. exact normalize_integer_value. Qed.
+Print Assumptions C09_integer_value.
+
+(** scanning a token's own text alone gives the same token: same kind, same value, same length *)
+Theorem C09_rescan : forall s t, In t (scan s) ->
+  scan (slice s (tstart t) (tend t)) = [mkTok (tkind t) 0 (tend t - tstart t) (tvalue t)].
+Proof. exact token_rescan. Qed.
+Print Assumptions C09_rescan.
+
+Theorem C09_item_rescan : forall l k v n, l <> [] -> lex1 l = Tok k v n -> lex1 (firstn n l) = Tok k v n.
+Proof. exact lex1_rescan. Qed.
+Print Assumptions C09_item_rescan.
 
 Example C09_example : map tkind (scan (L "a<=0x1f // c")) = [KIdentifier; KLE; KNumber].
 Proof. vm_compute. reflexivity. Qed.
